@@ -74,27 +74,29 @@ class SortableDict(col.MutableMapping):
 
         if (index is not None) and (pos_key is not None):
             raise ValueError('Either specify index or pos_key, not both.')
-        elif pos_key is not None:
-            try:
-                index = self.index(pos_key)
-            except ValueError:
-                raise KeyError('%r not found' % pos_key)
-
-        if after and (index is not None):
-            # insert inserts *before* index, so increment by one.
-            index += 1
+        elif (pos_key is not None) and (pos_key not in self._values):
+            raise KeyError('%r not found' % pos_key)
 
         if key in self._values:
             if not replace:
                 raise KeyError('%r is duplicate' % key)
 
-            if index is not None:
-                # We are re-locating.
-                del self[key]
-            else:
+            if (index is None) and ((pos_key is None) or (pos_key == key)):
                 # We are updating
                 self._values[key] = value
                 return
+
+            # We are re-locating.
+            del self[key]
+
+        if pos_key is not None:
+            # Position relative to the other key, as it stands now that the
+            # key being re-located is out of the way.
+            index = self.index(pos_key)
+
+        if after and (index is not None):
+            # insert inserts *before* index, so increment by one.
+            index += 1
 
         if index is not None:
             # Place at given position
